@@ -143,3 +143,39 @@ func (w *World) bindConn(ep *Endpoint, local netip.AddrPort) {
 }
 
 func (w *World) lisForEp(ep *Endpoint) *lisState { return ep.lis }
+
+// ISN returns the initial sequence number the simulated target acknowledged in the SYN-ACK of the
+// connection this endpoint probes (sack only).
+func (ep *Endpoint) ISN() (uint32, bool) {
+	if ep.Conn == nil {
+		return 0, false
+	}
+	return ep.Conn.isn, true
+}
+
+// LisInfo summarises a listener for the oracles.
+type LisInfo struct {
+	Addr     string
+	Port     uint16
+	Accepted int
+	Remotes  []uint16
+}
+
+// Listeners returns a summary of every scenario listener.
+func (w *World) Listeners() []LisInfo {
+	var out []LisInfo
+	for _, ls := range w.Lis {
+		li := LisInfo{Addr: ls.Addr.Addr().String(), Port: ls.Addr.Port(), Accepted: len(ls.Conns)}
+		for _, c := range ls.Conns {
+			li.Remotes = append(li.Remotes, c.remote.Port())
+		}
+		out = append(out, li)
+	}
+	return out
+}
+
+// DNSCalls returns the resolver invocations of the run.
+func (w *World) DNSCalls() []*DNSCall { return w.dns.Calls }
+
+// HTTPConns returns the provider connections of the run.
+func (w *World) HTTPConns() []*HTTPConn { return w.httpSt.Conns }
